@@ -109,6 +109,8 @@ struct SimFs {
   int faults_fired = 0;
   // FILE* layer (rules save/load by path)
   int64_t fwrite_fail_after_bytes = -1;  // disk full: bytes accepted before short writes start
+  int64_t fwrite_lost_after_bytes = -1;  // buffered writer on a full disk: fwrite keeps reporting success, bytes beyond this are lost, the error surfaces at fclose
+  int64_t lost_bytes = 0;
   int64_t noatime_refused = 0;           // opens refused because they asked for O_NOATIME on a file the caller does not own
   int64_t fwritten = 0;
   bool fclose_fails = false;
